@@ -51,10 +51,12 @@ const (
 	tkUnknownScheme
 	tkUpperScheme
 	tkRelPath
+	tkFileUpperScheme
+	tkFileEscaped
 	nTargetKinds
 )
 
-var c19kindNames = [...]string{"zsim", "zsim-fails", "file-url", "bare-path", "file-localhost", "missing-dir", "is-a-dir", "invalid-url", "unknown-scheme", "upper-case-scheme", "relative-path"}
+var c19kindNames = [...]string{"zsim", "zsim-fails", "file-url", "bare-path", "file-localhost", "missing-dir", "is-a-dir", "invalid-url", "unknown-scheme", "upper-case-scheme", "relative-path", "file-upper-case-scheme", "file-escaped-path"}
 
 var c19badURLs = []string{
 	"file://user:pw@localhost%s",
@@ -87,7 +89,7 @@ type c19sink struct {
 func (w *c19world) target(g *zsim.Stream, f *zsim.Stream) *c19target {
 	w.n++
 	t := &c19target{}
-	t.kind = g.Weighted(5, 2, 3, 2, 1, 1, 1, 2, 1, 1, 1)
+	t.kind = g.Weighted(5, 2, 3, 2, 1, 1, 1, 2, 1, 1, 1, 1, 1)
 	name := fmt.Sprintf("t%d", w.n)
 	switch t.kind {
 	case tkSim, tkSimFail, tkUpperScheme:
@@ -115,6 +117,16 @@ func (w *c19world) target(g *zsim.Stream, f *zsim.Stream) *c19target {
 	case tkFileLocalhost:
 		t.file = filepath.Join(w.dir, name+".log")
 		t.raw = "file://localhost" + t.file
+		t.ok = true
+	case tkFileUpperScheme:
+		// schemes are matched case-insensitively, the built-in one too
+		t.file = filepath.Join(w.dir, name+".log")
+		t.raw = pick(g, "FILE", "File", "fiLE") + "://" + t.file
+		t.ok = true
+	case tkFileEscaped:
+		// exactly the URL's (unescaped) path is opened
+		t.file = filepath.Join(w.dir, name+" a+b.log")
+		t.raw = "file://" + filepath.Join(w.dir, name+"%20a+b.log")
 		t.ok = true
 	case tkBarePath:
 		t.file = filepath.Join(w.dir, name+".log")
